@@ -23,7 +23,7 @@ REGION = {
 }
 RULE = (
     "case = (family, generating parameters from the regular region REGION (printed in the evidence) with data median in [0.05,20], n in 100..5000, "
-    "history: none | an instance of the same family fitted with fixed parameters earlier in the process; start values: library default | user start = generating values perturbed by factors in [0.5,2] | generating values, scale factor c keeping "
+    "fixed parameters: none | a proper subset fixed at the generating values; history: none | an instance of the same family fitted with fixed parameters earlier in the process; start values: library default | user start = generating values perturbed by factors in [0.5,2] | generating values, scale factor c keeping "
     "c*median in [0.05,20]). A monitor on Distribution.fit(method='mle') records start and fitted parameters; the log-likelihood is computed with the "
     "reference pdf. Clauses: LL(fit) >= LL(start) - slack (start admissible), LL(fit) >= LL(generating) - slack, finite and admissible estimates, "
     "equivariance judged in likelihood space (neither fit beaten by the other one rescaled by more than tau); parameter-space equality for the "
@@ -77,6 +77,17 @@ def gen_cases(tier, seed):
                 c = c * 1.7 if c * 1.7 * med <= 20 else c / 1.7
             start_kind = ["default", "perturbed", "generating"][r % 3]
             cases.append({"fam": fam, "gen": p, "n": n, "c": c, "start": start_kind, "prelude": bool(r % 2), "sub": int(rng.integers(1 << 31)), "cost": n / 500})
+        # fits with a proper subset of the parameters FIXED at the generating values (what every conditional model does):
+        # all clauses still apply to the free parameters
+        names_ = R.PARAMS[fam]
+        for r in range(2 if tier == "quick" else 30):
+            p = _draw(rng, fam)
+            k = int(rng.integers(1, len(names_))) if len(names_) > 1 else 0
+            fixed = sorted(rng.choice(names_, size=k, replace=False).tolist()) if k else []
+            n = int(rng.choice([300, 1000]))
+            med = float(R.icdf(fam, 0.5, **p)) if fam != "vonmises" else 1.0
+            c = 2.0 if med < 3 else 0.5
+            cases.append({"fam": fam, "gen": p, "n": n, "c": c, "start": ["default", "perturbed"][r % 2], "prelude": False, "fixed": fixed, "sub": int(rng.integers(1 << 31)), "cost": n / 500})
         # user start values at the edges of the magnitude range (small and large data scale), where a wrong use of the
         # start values (order, scale vs log-scale) is far from the optimum
         for edge in ("small", "large"):
@@ -155,7 +166,10 @@ def install():
 def _fit(fam, start_params, data, fixed=None):
     cls = S.classes()[fam]
     kw = dict(start_params or {})
-    if fam == "gamma":
+    for k, v in (fixed or {}).items():
+        kw.pop(k, None)
+        kw[f"f_{k}"] = v
+    if fam == "gamma" and "loc" not in (fixed or {}):
         kw.pop("loc", None)
         kw["f_loc"] = 0.0
     d = cls(**kw)
@@ -207,7 +221,12 @@ def run_case(case, ctx):
                 ctx.count("c12.prelude-fit-with-fixed-parameters")
             except Exception:  # noqa: BLE001 - the prelude is only history
                 ctx.count("c12.prelude-failed")
-    d1, obs1 = _fit(fam, start, x)
+    fixed_names = case.get("fixed") or []
+    fixed1 = {k: gen[k] for k in fixed_names}
+    ctx.cls("n_fixed", len(fixed_names))
+    if fixed_names:
+        info["fixed"] = fixed1
+    d1, obs1 = _fit(fam, start, x, fixed1)
     if obs1.get("after") is None:
         ctx.check("c12.fit-observed-state", False, f"{fam}: MLE fit was not observed by the monitor or raised", exc=repr(obs1.get("exc")), **info)
         return
@@ -222,7 +241,7 @@ def run_case(case, ctx):
     ll_fit = loglik(fam, x, th1)
     ll_start = loglik(fam, x, st1)
     ll_gen = loglik(fam, x, gen)
-    mech = _lnnf_mech(fam, x, th1)
+    mech = _lnnf_mech(fam, x, th1, fixed1)
     if np.isfinite(ll_start):
         ctx.check("c12.not-lower-than-start", ll_fit >= ll_start - slack, f"{fam}: log-likelihood after MLE fitting is lower than at the start values", mech, ll_fit=ll_fit, ll_start=ll_start, start=st1, fitted=th1, **info)
     else:
@@ -237,7 +256,7 @@ def run_case(case, ctx):
         return
     x2 = cfac * x
     start2 = None if start is None else scale_params(fam, start, cfac)
-    d2, obs2 = _fit(fam, start2, x2)
+    d2, obs2 = _fit(fam, start2, x2, {k: scale_params(fam, gen, cfac)[k] for k in fixed_names})
     if obs2.get("after") is None:
         ctx.check("c12.fit-observed-state", False, f"{fam}: MLE fit of scaled data raised", exc=repr(obs2.get("exc")), **info)
         return
@@ -269,11 +288,14 @@ def run_case(case, ctx):
     )
 
 
-def _lnnf_mech(fam, x, th):
-    """Predicate of the known finding: the 'MLE' of LogNormalNormFit is exactly the moment estimator."""
+def _lnnf_mech(fam, x, th, fixed=None):
+    """Predicate of the known finding: the 'MLE' of LogNormalNormFit is exactly the moment estimator
+    (every free parameter equals its sample moment, every fixed one its fixed value)."""
     if fam != "lnnf":
         return None
-    if th["mu_norm"] == np.mean(x) and th["sigma_norm"] == np.std(x, ddof=1):
+    fixed = fixed or {}
+    want = {"mu_norm": fixed.get("mu_norm", np.mean(x)), "sigma_norm": fixed.get("sigma_norm", np.std(x, ddof=1))}
+    if th["mu_norm"] == want["mu_norm"] and th["sigma_norm"] == want["sigma_norm"] and len(fixed) < 2:
         return "lnnf-mle-is-moment-estimator"
     return None
 
